@@ -264,6 +264,16 @@ impl EncCase {
                     continue;
                 }
             }
+            // in a quarter of the cases every setter is first called with a different value: the last
+            // call decides ("Specify ...": a setter replaces the earlier choice)
+            if h & 0xC00 == 0xC00 {
+                b = match k {
+                    0 => b.with_symbol_list(SymbolList::with_whitelist([CRATE_SYMBOLS[(h >> 12) as usize % 48]])),
+                    1 => b.with_encodation_types(modes_to_flags(((h >> 20) as u8 % 63) + 1)),
+                    2 => b.with_macros(!self.macros),
+                    _ => b.with_fnc1_start(!self.fnc1),
+                };
+            }
             b = match k {
                 0 => b.with_symbol_list(mask_to_list(self.list)),
                 1 => b.with_encodation_types(modes_to_flags(self.modes)),
